@@ -224,6 +224,12 @@ func (v *Verifier) evalModEntry(fr *Frame, text string, vars map[string]Val, st 
 			out = append(out, modEntry{comp: prefix + sc.suffix, sort: srt, ref: ref})
 		}
 	}
+	// elems(T): every element of every slice/array with element type T (coarse)
+	if strings.HasPrefix(text, "elems(") && strings.HasSuffix(text, ")") {
+		et := v.resolveType(pkg, strings.TrimSuffix(strings.TrimPrefix(text, "elems("), ")"))
+		addLeaves("E:"+typeName(et), et, "", true)
+		return out
+	}
 	// x.*  : all fields of the object
 	if strings.HasSuffix(text, ".*") {
 		e, err := parseSpec(strings.TrimSuffix(text, ".*"))
@@ -317,6 +323,16 @@ func (v *Verifier) evalLocation(env *Env, e SExpr) (*Loc, types.Type) {
 						return fv.Loc, stt.Field(i).Type()
 					}
 					encFail("modifies: %s is an embedded struct; list its fields or use .*", x)
+				}
+			}
+			for i := 0; i < stt.NumFields(); i++ {
+				if stt.Field(i).Embedded() && structHasField(stt.Field(i).Type(), x.Name) {
+					if _, isStruct := stt.Field(i).Type().Underlying().(*types.Struct); isStruct {
+						fv := v.curRoot.fieldOf(base.A, pt, i)
+						ne := env.clone()
+						ne.vars["$emb"] = fv
+						return v.evalLocation(ne, &SSel{&SIdent{"$emb"}, x.Name})
+					}
 				}
 			}
 		}
